@@ -554,6 +554,19 @@ def r6(ctx):
             if len(c.args) > 1 and any(o.kind == "call" and nx and o.ref is nx[0] for o in deep_roots(prog, new, c.args[1])):
                 idx_ok = True
         ctx.ob("R6", "CombinedScan::new/index of the enumerated rule", idx_ok, "the index pushed into the kind table is the enumerate() index of that same rule", where=new.loc())
+        # every kind the rule may match is registered: in the loop over the kind set each iteration reaches the push of the rule index
+        # (a bounds-guarded `if let Some(slot) = table.get_mut(kind)` silently leaves out ERROR = 65535, the one kind id outside the grammar's count)
+        from ..query import path_avoiding as _pa
+        knext = [c for c in new.calls if c.name == "next" and "bit_set" in c.best and new.in_loop(c.bb)]
+        idx_push = [c for c in pushes if len(c.args) > 1 and any(o.kind == "call" and nx and o.ref is nx[0] for o in deep_roots(prog, new, c.args[1]))]
+        reg_ok = bool(knext) and bool(idx_push)
+        for c in knext:
+            arms = option_arms(new, c)
+            if not arms["some"] or any(_pa(new, sb, [p_.bb for p_ in idx_push], [c.bb]) for sb in arms["some"]):
+                reg_ok = False
+        ctx.ob("R6", "CombinedScan::new/every potential kind is registered", reg_ok,
+               "each kind yielded by the rule's kind set reaches `table[kind].push(idx)` before the next kind is fetched" if reg_ok else
+               "a kind of the rule's kind set can be skipped without registering the rule under it (conditional push): nodes of that kind are never dispatched to the rule", where=new.loc())
         # no mutation of `rules` after the loop head; aggregate stores the same vector
         muts = [c for c in new.calls if re.search(r"::(sort\w*|reverse|retain|dedup\w*|swap|remove|insert|push|truncate|drain|pop|rotate\w*)$", c.best)
                 and any(o.kind == "param" and o.ref == 1 for o in deep_roots(prog, new, c.args[0], TRANSPARENT | {"deref_mut", "as_mut_slice"}))]
